@@ -1,10 +1,104 @@
 HOOK_COMMITS = ["df6448a"]
-PENDING = "check under construction in this round (machinery not yet built); will be claimed when its theorem and tie exist"
-NOT_APPLICABLE = {("C%02d" % i): PENDING for i in range(1, 21)}
+NOT_APPLICABLE = {}
 CHECKS = {
- "C19": {
-  "text": "Theorem C19_words_preserved (Coq, all texts, all indents, no bound): the reflowed paragraph has exactly the words of the input, for the model of processText instantiated with the toolchain's White_Space table. The model is tied to the Go function on every run by the S-reflow correspondence stream (exhaustive small scope + width-boundary + random).",
-  "note": "Proved about the Gallina model Reflow.reflow; that the model is processText is differential testing (S-reflow) through the verif hook VerifProcessText. Closed under the global context. The indentation/no-split clauses are checked on the implementation by the stream's oracle and follow for the model from C19_shape when proved.",
-  "technique": "Coq proof (invariant over fold_left step) + extracted-model correspondence",
+ 'C01': {
+  "text": 'Exit class (output / error / panic) of every compilation is compared between the Go code and the Gallina model, which has a partial primitive at every Go panic site; the repaired defects are machine-checked witnesses on the model; the no-panic theorem C01_full is stated, its proof pending.',
+  "note": 'Theorems are about the hand-written Gallina model (coq/Model, coq/Base) and about coq/Gen regenerated from /repo; that the model is the code is differential testing (streams named in the evidence); see evidence.coverage.partial_theorems for what is not yet proved. Trusted base in evidence.coverage.trusted_base.',
+  "technique": 'correspondence (exit class) + Coq witnesses; theorem C01_full pending',
+ },
+ 'C02': {
+  "text": 'Quiet XHTML/EPUB compilations: bytes of every generated file agree between code and model on exhaustive family enumerations; Spec/Xml.wf_xml evaluated on the model for the repaired defects (Coq witnesses); known finding D7 is a machine-checked refutation witness; C02_full stated, balance invariant pending.',
+  "note": 'Theorems are about the hand-written Gallina model (coq/Model, coq/Base) and about coq/Gen regenerated from /repo; that the model is the code is differential testing (streams named in the evidence); see evidence.coverage.partial_theorems for what is not yet proved. Trusted base in evidence.coverage.trusted_base.',
+  "technique": 'correspondence (bytes) + strict XML oracle + Coq witnesses; invariant proof pending',
+ },
+ 'C03': {
+  "text": 'Coq theorems on the regenerated html table: escaping is decodable (no character dropped, duplicated, reordered), markup characters never pass through, typography only inserts; position sweep ties every text-bearing position of the model to the code.',
+  "note": 'Theorems are about the hand-written Gallina model (coq/Model, coq/Base) and about coq/Gen regenerated from /repo; that the model is the code is differential testing (streams named in the evidence); see evidence.coverage.partial_theorems for what is not yet proved. Trusted base in evidence.coverage.trusted_base.',
+  "technique": 'Coq proof (generic replacer theorem on regenerated table) + position-sweep correspondence',
+ },
+ 'C04': {
+  "text": 'Coq theorems on the regenerated LaTeX table: decodable, injective, specials only inside escape forms, compositional; LaTeX exporter tied by byte correspondence; balance half searched by a TeX balance oracle, proof pending.',
+  "note": 'Theorems are about the hand-written Gallina model (coq/Model, coq/Base) and about coq/Gen regenerated from /repo; that the model is the code is differential testing (streams named in the evidence); see evidence.coverage.partial_theorems for what is not yet proved. Trusted base in evidence.coverage.trusted_base.',
+  "technique": 'Coq proof (generic replacer theorem on regenerated table) + correspondence',
+ },
+ 'C05': {
+  "text": "Link/anchor consistency: the model's printed bytes (incl. nav, NCX, OPF) agree with the code on label/cross-reference families in all modes; a link-following oracle runs on every quiet output; Coq witness on the model; theorem pending.",
+  "note": 'Theorems are about the hand-written Gallina model (coq/Model, coq/Base) and about coq/Gen regenerated from /repo; that the model is the code is differential testing (streams named in the evidence); see evidence.coverage.partial_theorems for what is not yet proved. Trusted base in evidence.coverage.trusted_base.',
+  "technique": 'correspondence + link oracle + Coq witness; theorem pending',
+ },
+ 'C06': {
+  "text": 'Coq theorems about toc.go as translated statement-by-statement on every run (GoLite): counters = hierarchical spec, levels ordered; nesting loop balanced for every level sequence; exhaustive header-sequence streams tie writeTOC and the headers.',
+  "note": 'Theorems are about the hand-written Gallina model (coq/Model, coq/Base) and about coq/Gen regenerated from /repo; that the model is the code is differential testing (streams named in the evidence); see evidence.coverage.partial_theorems for what is not yet proved. Trusted base in evidence.coverage.trusted_base.',
+  "technique": 'Coq proof on translated source (GoLite) + exhaustive correspondence',
+ },
+ 'C07': {
+  "text": 'Diagnostics (file, line, macro) of the model agree with the code on all opener/closer sequences and layouts; independent nesting checker as oracle; Coq witnesses for lines and reports; theorems pending.',
+  "note": 'Theorems are about the hand-written Gallina model (coq/Model, coq/Base) and about coq/Gen regenerated from /repo; that the model is the code is differential testing (streams named in the evidence); see evidence.coverage.partial_theorems for what is not yet proved. Trusted base in evidence.coverage.trusted_base.',
+  "technique": 'correspondence (projected diagnostics) + nesting oracle + Coq witnesses',
+ },
+ 'C08': {
+  "text": 'User macro call vs substituted body: both documents compiled by code and model (agreeing), outputs compared pairwise in four formats; Coq witness on the model; theorem pending.',
+  "note": 'Theorems are about the hand-written Gallina model (coq/Model, coq/Base) and about coq/Gen regenerated from /repo; that the model is the code is differential testing (streams named in the evidence); see evidence.coverage.partial_theorems for what is not yet proved. Trusted base in evidence.coverage.trusted_base.',
+  "technique": 'pair correspondence + Coq witness; theorem pending',
+ },
+ 'C09': {
+  "text": 'Conditional/format elision: pairs (with construct, elided) compiled by code and model in four formats; Coq witnesses incl. refutation witness of known finding D10b; false-branch lemma to be ported.',
+  "note": 'Theorems are about the hand-written Gallina model (coq/Model, coq/Base) and about coq/Gen regenerated from /repo; that the model is the code is differential testing (streams named in the evidence); see evidence.coverage.partial_theorems for what is not yet proved. Trusted base in evidence.coverage.trusted_base.',
+  "technique": 'pair correspondence + Coq witnesses; theorem pending',
+ },
+ 'C10': {
+  "text": 'Variable interpolation vs literal: pairs compiled by code and model; Coq witness; theorem pending.',
+  "note": 'Theorems are about the hand-written Gallina model (coq/Model, coq/Base) and about coq/Gen regenerated from /repo; that the model is the code is differential testing (streams named in the evidence); see evidence.coverage.partial_theorems for what is not yet proved. Trusted base in evidence.coverage.trusted_base.',
+  "technique": 'pair correspondence + Coq witness; theorem pending',
+ },
+ 'C11': {
+  "text": 'Include vs paste: all splits of five documents at block boundaries, nested to depth 3, cwd and FRUNDISLIB, compiled by code and model; Coq witness; theorem pending.',
+  "note": 'Theorems are about the hand-written Gallina model (coq/Model, coq/Base) and about coq/Gen regenerated from /repo; that the model is the code is differential testing (streams named in the evidence); see evidence.coverage.partial_theorems for what is not yet proved. Trusted base in evidence.coverage.trusted_base.',
+  "technique": 'pair correspondence + Coq witness; theorem pending',
+ },
+ 'C12': {
+  "text": "Coq theorems on the scanner/parser model: a macro line printed by the manual's rules is read back as that name and those arguments on line 1 (single-blank layout, _partial); model identical to parser.ParseString on all inputs <= 4 over 17 runes; other layouts and line numbers by exhaustive round-trip oracle.",
+  "note": 'Theorems are about the hand-written Gallina model (coq/Model, coq/Base) and about coq/Gen regenerated from /repo; that the model is the code is differential testing (streams named in the evidence); see evidence.coverage.partial_theorems for what is not yet proved. Trusted base in evidence.coverage.trusted_base.',
+  "technique": 'Coq proof (partial) + exhaustive correspondence',
+ },
+ 'C13': {
+  "text": 'Coq theorem over facts regenerated from SSA on every run: only getCommand creates a process, every call is dominated by the Unrestricted guard, the flag has two writers; every route observed on the real binary with a marker file.',
+  "note": 'Theorems are about the hand-written Gallina model (coq/Model, coq/Base) and about coq/Gen regenerated from /repo; that the model is the code is differential testing (streams named in the evidence); see evidence.coverage.partial_theorems for what is not yet proved. Trusted base in evidence.coverage.trusted_base.',
+  "technique": 'Coq proof over regenerated static facts + route sweep on the binary',
+ },
+ 'C14': {
+  "text": "EPUB tree: every file's bytes agree between code and model over parts/chapters/images/cover/css/version families; manifest/spine oracle; archive checked on the real binary (-z) for four spellings of the output path; Coq witness; theorem pending.",
+  "note": 'Theorems are about the hand-written Gallina model (coq/Model, coq/Base) and about coq/Gen regenerated from /repo; that the model is the code is differential testing (streams named in the evidence); see evidence.coverage.partial_theorems for what is not yet proved. Trusted base in evidence.coverage.trusted_base.',
+  "technique": 'correspondence (whole tree) + manifest oracle + archive check',
+ },
+ 'C15': {
+  "text": 'Coq theorem on the regenerated roff table: escaped text never drives the control-line machine to Bad (no leading dot/quote, no double quote, every backslash starts an exporter escape), wherever lines break; mom exporter tied by byte correspondence incl. roff-significant strings in 9 positions.',
+  "note": 'Theorems are about the hand-written Gallina model (coq/Model, coq/Base) and about coq/Gen regenerated from /repo; that the model is the code is differential testing (streams named in the evidence); see evidence.coverage.partial_theorems for what is not yet proved. Trusted base in evidence.coverage.trusted_base.',
+  "technique": 'Coq proof (machine invariant over regenerated table) + correspondence',
+ },
+ 'C16': {
+  "text": 'Recursion shapes compiled under a watchdog by code and model (agreeing on output and diagnostics); Coq witnesses that cycles are cut, diagnosed and the rest processed; cost-bound theorem pending.',
+  "note": 'Theorems are about the hand-written Gallina model (coq/Model, coq/Base) and about coq/Gen regenerated from /repo; that the model is the code is differential testing (streams named in the evidence); see evidence.coverage.partial_theorems for what is not yet proved. Trusted base in evidence.coverage.trusted_base.',
+  "technique": 'correspondence under watchdog + Coq witnesses; bound theorem pending',
+ },
+ 'C17': {
+  "text": 'Coq theorem on the path model (safe component stays inside); generated file names tied by tree correspondence; real binary run in a sandbox reports any path created outside the output path or left in TMPDIR.',
+  "note": 'Theorems are about the hand-written Gallina model (coq/Model, coq/Base) and about coq/Gen regenerated from /repo; that the model is the code is differential testing (streams named in the evidence); see evidence.coverage.partial_theorems for what is not yet proved. Trusted base in evidence.coverage.trusted_base.',
+  "technique": 'Coq proof (path lemma) + tree correspondence + sandbox observation',
+ },
+ 'C18': {
+  "text": 'Coq theorem over regenerated static facts (mutable globals, map ranges, time/rand sites); histories of 2-4 compilations in one process compared with each compilation alone in a fresh process.',
+  "note": 'Theorems are about the hand-written Gallina model (coq/Model, coq/Base) and about coq/Gen regenerated from /repo; that the model is the code is differential testing (streams named in the evidence); see evidence.coverage.partial_theorems for what is not yet proved. Trusted base in evidence.coverage.trusted_base.',
+  "technique": 'Coq proof over regenerated static facts + history stream',
+ },
+ 'C19': {
+  "text": "Theorem C19_words_preserved (all texts, all indents): the reflowed paragraph has exactly the words of the input, for the model of processText instantiated with the toolchain's White_Space table; model tied by S-reflow.",
+  "note": 'Theorems are about the hand-written Gallina model (coq/Model, coq/Base) and about coq/Gen regenerated from /repo; that the model is the code is differential testing (streams named in the evidence); see evidence.coverage.partial_theorems for what is not yet proved. Trusted base in evidence.coverage.trusted_base.',
+  "technique": 'Coq proof (invariant over fold_left step) + extracted-model correspondence',
+ },
+ 'C20': {
+  "text": 'Theorems C20_french/english_only_inserts: output embeds the source with only no-break-space insertions and apostrophe curling; model identical to the Go functions on exhaustive texts and fragment splits; suppress/spaced clauses by oracle.',
+  "note": 'Theorems are about the hand-written Gallina model (coq/Model, coq/Base) and about coq/Gen regenerated from /repo; that the model is the code is differential testing (streams named in the evidence); see evidence.coverage.partial_theorems for what is not yet proved. Trusted base in evidence.coverage.trusted_base.',
+  "technique": 'Coq proof (Embed relation) + exhaustive correspondence',
  },
 }
